@@ -41,6 +41,8 @@ BOUNDS = {'quick': 'all DAGs on <=3 files (edges to higher indices = every DAG u
                    'n<=2, 5 selections for n=3 incl. duplicates / output-name / directory inputs; every completion order of in-flight tasks; '
                    'modes Build, InMemoryBuild, Verify; lemma: 4 dependency name shapes x include/after',
           'thorough': 'DAGs on 4 files with out-degree <=2, every input subset for n<=3'}
+from . import project as _project
+BOUNDS = {k: v + _project.bounds_note('C02', k) for k, v in BOUNDS.items()}
 ASSUMPTIONS = ['worker bodies are atomic with respect to the coordinator (they communicate only through the channel); interference of two '
                'workers through the file system and true simultaneity are outside the claim',
                'thread count only matters through the pool contract: every completion order is possible with enough threads',
